@@ -400,11 +400,15 @@ impl<'a> DataRowIteratorTestData<'a> {
             self.cache.push(row_result.clone());
             for entry_index in self.expected_indices {
                 match entry_index {
+                    // A column can drive an input and be the expected column of a bidirectional
+                    // signal at the same time; its input value must survive in the unchecked rows
                     EntryIndex::Entry {
                         entry_index,
                         signal_index: _,
-                    } => row_result.entries[*entry_index] = DataEntry::X,
-                    EntryIndex::Default { signal_index: _ } => continue,
+                    } if !self.entry_is_input(*entry_index) => {
+                        row_result.entries[*entry_index] = DataEntry::X
+                    }
+                    _ => continue,
                 }
             }
             row_result.update_output = false;
